@@ -7,8 +7,8 @@ import (
 	"strings"
 	"time"
 
-	"github.com/akrennmair/updog/verifhook"
 	proto "github.com/akrennmair/updog/proto/updog/v1"
+	"github.com/akrennmair/updog/verifhook"
 )
 
 // ---------- proto tree <-> canonical prefix form (same as the oracle's showPQuery) ----------
